@@ -403,7 +403,7 @@ def orders(vs, extras, rng):
 
 
 def corpus(rng, tier, n_random, profiles=("poly", "smooth", "smooth", "all"), depths=(2, 3, 4),
-           focus_profile="all", focus_scale=1.0, errors=None, pool_kwargs=None, want=None, gen_flags=None):
+           focus_profile="all", focus_scale=1.0, errors=None, pool_kwargs=None, want=None, gen_flags=None, exclude=None):
     """Expressions for the differential channels: first the FOCUSED corpus (every reduction /
     leaf kind under every one-node context - constant on either side of each operator, each
     power, each function; in the thorough tier also every pair of stacked contexts), then
@@ -423,6 +423,11 @@ def corpus(rng, tier, n_random, profiles=("poly", "smooth", "smooth", "all"), de
         def label(i):
             return f"{cs[(i // len(bs)) % len(cs)][0]}({bs[i % len(bs)]})"
         full = [i for i in full if any(w in label(i) for w in want)]
+    if exclude is not None:
+        bs, cs = probe.bases(), probe.contexts()
+        def label2(i):
+            return f"{cs[(i // len(bs)) % len(cs)][0]}({bs[i % len(bs)]})"
+        full = [i for i in full if not any(w in label2(i) for w in exclude)]
     if tier == "quick" and focus_scale < 1.0:
         k = max(1, int(len(full) * focus_scale))
         order = list(full)
